@@ -88,9 +88,12 @@ def analyse(job):
 
 
 def lazy_vs_eager(lazy, eager):
+    """Compare modulo the test-set variant a node happens to be named after (leaves.X / all.X are the same test X: which one names the node
+    depends on whether the test was first met as a selected leaf or as a dependency)."""
+    ss = parsemc.strip_set
     errs = []
-    e_by = {n["name"]: n for n in eager["nodes"] if not n["flat"] and not n["shared_root"]}
-    l_by = {n["name"]: n for n in lazy["nodes"] if not n["flat"] and not n["shared_root"]}
+    e_by = {ss(n["name"]): n for n in eager["nodes"] if not n["flat"] and not n["shared_root"]}
+    l_by = {ss(n["name"]): n for n in lazy["nodes"] if not n["flat"] and not n["shared_root"]}
     e_names = {n["name"]: n for n in eager["nodes"]}
     l_names = {n["name"]: n for n in lazy["nodes"]}
     for name, ln in l_by.items():
@@ -100,8 +103,8 @@ def lazy_vs_eager(lazy, eager):
             continue
         if ln["clone_source"] or en["clone_source"]:
             continue  # a clone source keeps an arbitrary first producer and is never run: its clones are compared instead
-        ls = sorted((p, tuple(o)) for p, o in ln["setup"].items() if not l_names.get(p, {}).get("flat") and not l_names.get(p, {}).get("shared_root"))
-        es = sorted((p, tuple(o)) for p, o in en["setup"].items() if not e_names.get(p, {}).get("flat") and not e_names.get(p, {}).get("shared_root"))
+        ls = sorted((ss(p), tuple(o)) for p, o in ln["setup"].items() if not l_names.get(p, {}).get("flat") and not l_names.get(p, {}).get("shared_root"))
+        es = sorted((ss(p), tuple(o)) for p, o in en["setup"].items() if not e_names.get(p, {}).get("flat") and not e_names.get(p, {}).get("shared_root"))
         if ls != es:
             errs.append(("lazy-deps", f"{name}: dependencies after lazy expansion {ls[:2]} differ from the complete parse {es[:2]}"))
     inv = lambda names: {parsemc.worker_invariant(n, "") for n in names}
@@ -170,8 +173,9 @@ def run_parse_check(prop, tier, seed, technique, rule, assumptions):
         # lazy expansion under all schedules within k deviations (the order in which workers unroll flat tests is the traversal schedule)
         from vt.e1 import scenarios as S
 
-        dyn = [(S.T2(lazy=True), 1), (S.T3(lazy=True), 1), (S.G1(), 1 if tier == "quick" else 2), (S.G2(), 0 if tier == "quick" else 1),
-               (S.T2("net1 net2 net3", lazy=True), 1)]
+        ggall = engine.Scenario("GGall:net1+net2/lazy", "only leaves\nonly tutorial_gui,tutorial_get\n", "net1 net2", lazy=True)
+        dyn = [(S.T2(lazy=True), 1), (S.T3(lazy=True), 1), (S.G1(), 1 if tier == "quick" else 2), (S.G2(), 1 if tier == "quick" else 2),
+               (ggall, 0 if tier == "quick" else 1), (S.T2("net1 net2 net3", lazy=True), 1)]
         dyn_rows = []
         for scn, k in dyn:
             scn.keep_graph = True
